@@ -576,6 +576,15 @@ macro_rules! impl_rem_assign_scalar {
             #[inline]
             fn rem_assign(&mut self, other: &BigUint) {
                 *self = match other.$to_scalar() {
+                    // `other` exceeds the scalar's positive range, so it also exceeds |self| and the remainder
+                    // is `self` itself - except for the signed minimum, whose magnitude 2^(BITS-1) may equal `other`
+                    None if *self == <$scalar>::MIN
+                        && <$scalar>::MIN != 0
+                        && other.bits() == u64::from(<$scalar>::BITS)
+                        && other.trailing_zeros() == Some(u64::from(<$scalar>::BITS) - 1) =>
+                    {
+                        0
+                    }
                     None => *self,
                     Some(0) => panic!("attempt to divide by zero"),
                     Some(v) => *self % v
